@@ -624,13 +624,17 @@ def stream_regions(ctx, acc):
                 kw.update({"relativize": False, "fit_to_screen": False})
             elif r < 0.5:
                 kw.update({"relativize": rng.random() < 0.5, "fit_to_screen": rng.random() < 0.5})
+            if wname == "single" and rng.random() < 0.4:
+                kw["default_positioning"] = rng.choice([Layout(origin=Point(Size(5, UnitEnum.PERCENT), Size(80, UnitEnum.PERCENT))),
+                                                        Layout(webvtt_positioning="line:10%"), Layout()])
         Recorder.seen = None
         blob = pickled(cs)
         w = recording_writer(WRITERS[wname], **kw) if wname != "legacy" else LegacyDFXPWriter()
         out = impl.call(lambda: w.write(cs))
         acc.res["evaluations"] += 1
-        inp = {"writer": wname, "options": kw, "set": gens.describe_capset(cs), "styles": repr(cs.get_styles())[:500]}
-        rp = {"replay": "document", "pickle": blob, "writer": wname, "options": kw, "force": None}
+        inp = {"writer": wname, "options": {k: repr(v) for k, v in kw.items()}, "set": gens.describe_capset(cs),
+               "styles": repr(cs.get_styles())[:500]}
+        rp = {"replay": "document", "pickle": blob, "writer": wname, "options_pickle": pickled(kw), "force": None}
         if not isinstance(out, Ok) or (wname != "legacy" and Recorder.seen is None):
             acc.res["violations"].append(dict({"kind": "write-raises", "what": "%s writer raised %r" % (wname, out), "input": inp}, **rp))
             continue
@@ -657,6 +661,26 @@ def stream_regions(ctx, acc):
                 acc.count("R_legacy_documents")
             continue
         seen = Recorder.seen
+        if wname == "single":
+            # the writer's own set transformation, modelled (request 713): from the ORIGINAL set (concurrent captions merged,
+            # which the model does not see) and the positioning to the ids / references of the document
+            from pycaption.base import merge_concurrent_captions
+            from pycaption.dfxp.base import DFXP_DEFAULT_REGION
+            pos = kw.get("default_positioning", DFXP_DEFAULT_REGION)
+            pl = [0 if pos == DFXP_DEFAULT_REGION else 1, 1 if creates_region(pos) else 0, 1 if pos else 0]
+            sm = oracle_batch([(713, [pl, abstract_document(merge_concurrent_captions(deepcopy(cs)))])])[0]
+            if pl[0] == 1 and canon(got_summ) != canon(sm[:5]):
+                # a custom default_positioning: DFXPWriter.write relativizes / fits the copies at the different levels
+                # separately and an empty Layout() is not propagated like a real one - the transformation model is only
+                # validated for the default positioning; counted, the document itself was judged above
+                acc.count("R_single_positioning_custom_positioning_differs_from_the_model(not validated)")
+            elif canon(got_summ) != canon(sm[:5]):
+                acc.res["disagreements"].append({"stream": "R-document-single", "input": inp, "impl": got_summ, "model": sm[:5],
+                                                 "what": "ids / references differ from the single-positioning model "
+                                                         "(DfxpDoc.single_positioning + summarize)"})
+                continue
+            acc.count("R_single_positioning_documents_against_the_transformation_model")
+            acc.count("R_single_positioning_custom_positioning", int(pl[0] == 1))
         m = oracle_batch([(706, abstract_layouts(seen))])[0]
         want_defined = [rid(x) for x in m[1]]
         want_refs = [[rid(dv[0]), [[rid(p[0]), [rid(s) for s in p[1]]] for p in dv[1]]] for dv in m[2]]
@@ -1104,7 +1128,8 @@ def run(ctx):
                     "RegionCreator model: ids unique, every reference resolves, no unreferenced region survives cleanup",
                     "whole traversal of DFXPWriter (DfxpDoc.summarize) and of LegacyDFXPWriter (legacy_summarize): ok_refs = 0 on "
                     "their domains (ids and references only: _partial)",
-                    "span / legacy attribute dictionaries have valid, pairwise distinct names"],
+                    "span / legacy attribute dictionaries have valid, pairwise distinct names",
+                    "SinglePositioningDFXPWriter: set transformation modelled; one region; ok_refs = 0 on an input-level domain (_partial)"],
         "correspondence_only": ["whole-document well-formedness, namespaces, head / body, div / p counts, begin / end (expat and lxml, "
                                 "strict, no recovery)", "bs4 tree building and prettify indentation",
                                 "the spec parsers themselves are validated against lxml (accept/reject and decoded events) on writer "
